@@ -42,6 +42,27 @@ let plan_string (r : (coq_N * coq_N) list list res) : string =
   | Ok l -> "ok:" ^ S.concat ";" (L.map (fun iv -> match ivs_string (Ok iv) with s -> S.sub s 3 (S.length s - 3)) l)
   | r -> class_of r
 
+(* dts:dur:cto:flags *)
+let parse_sample (x : string) : fsample =
+  match split_on ':' x with
+  | [dts; dur; cto; flags] ->
+    { fs_dts = n_of_dec dts; fs_dur = n_of_dec dur; fs_cto = z_of_dec cto; fs_flags = n_of_dec flags; fs_data = [] }
+  | _ -> failwith ("bad sample " ^ x)
+let parse_samples (s : string) : fsample list = if s = "-" then [] else L.map parse_sample (split_on '/' s)
+
+let counts_string (r : fsample list list res) : string =
+  match r with
+  | Ok [] -> "ok:-"
+  | Ok l -> "ok:" ^ S.concat "," (L.map (fun seg -> string_of_int (L.length seg)) l)
+  | r -> class_of r
+
+let layout_string (fo : frag_out) : string =
+  match trun_layout fo with
+  | [] -> "-"
+  | l -> S.concat "," (L.map (fun ((id, w), c) -> dec_of_n id ^ ":" ^ dec_of_n w ^ ":" ^ dec_of_n c) l)
+
+let opt_n (s : string) : coq_N option = if s = "x" then None else Some (n_of_dec s)
+
 let () =
   iter_lines (fun line ->
       match split_on '\t' line with
@@ -60,4 +81,67 @@ let () =
         let mp = plan_string (segment_plan ts (n_of_dec d)) in
         if mp = plan then Printf.printf "OK %s\n" id
         else Printf.printf "MISMATCH %s segmenter-tool model_plan=%s\n" id mp
+      | ["R"; id; d; samples; obs] ->
+        let m = counts_string (resegment (n_of_dec d) (parse_samples samples)) in
+        if m = obs then Printf.printf "OK %s\n" id
+        else Printf.printf "MISMATCH %s resegment model=%s\n" id m
+      | ["F"; id; d; frags; obs] ->
+        let fr = if frags = "" then [] else L.map parse_samples (split_on '|' frags) in
+        let m = counts_string (fragmentify (n_of_dec d) fr) in
+        if m = obs then Printf.printf "OK %s\n" id
+        else Printf.printf "MISMATCH %s fragmentify model=%s\n" id m
+      | ["A"; id; ids; ops; obs] ->
+        let ids = L.map n_of_dec (split_on ',' ids) in
+        let ops = if ops = "-" then [] else L.map (fun o -> match split_on ':' o with
+            | [tid; dts; dur] -> (n_of_dec tid, n_of_dec dts, n_of_dec dur)
+            | _ -> failwith "bad op") (split_on ',' ops) in
+        let (fo, nerr, _) =
+          L.fold_left (fun (fo, nerr, i) (tid, dts, dur) ->
+              let s = { fs_dts = dts; fs_dur = dur; fs_cto = z_of_int i; fs_flags = n_of_int 33554432; fs_data = [] } in
+              match add_sample_to_track fo s tid with
+              | Ok fo' -> (fo', nerr, i + 1)
+              | _ -> (fo, nerr + 1, i + 1))
+            (create_multi ids, 0, 0) ops in
+        let seen = Hashtbl.create 7 in
+        let per = L.filter_map (fun tid ->
+            let k = int_of_n tid in
+            if Hashtbl.mem seen k then None else begin
+              Hashtbl.add seen k ();
+              Some (match read_track fo.fo_trafs tid with
+                  | None -> string_of_int k ^ "=err"
+                  | Some [] -> string_of_int k ^ "=-"
+                  | Some l -> string_of_int k ^ "=" ^
+                              S.concat "." (L.map (fun s -> dec_of_n s.fs_dts ^ ":" ^ string_of_int (int_of_z s.fs_cto)) l))
+            end) ids in
+        let m = Printf.sprintf "%d|%s|%s" nerr (layout_string fo) (S.concat ";" per) in
+        if m = obs then Printf.printf "OK %s\n" id
+        else Printf.printf "MISMATCH %s add-to-track model=%s\n" id m
+      | ["D"; id; tfhd; bits; tx; samples; obs] ->
+        let (dd, dz, df) = match split_on ',' tfhd with [a; b; c] -> (opt_n a, opt_n b, opt_n c) | _ -> failwith "bad tfhd" in
+        let tx = if tx = "x" then None else
+            (match split_on ',' tx with
+             | [a; b; c] -> Some { tx_dur = n_of_dec a; tx_size = n_of_dec b; tx_flags = n_of_dec c }
+             | _ -> failwith "bad trex") in
+        let raw = if samples = "-" then [] else L.map (fun x -> match split_on ':' x with
+            | [d; z; f] -> ({ fs_dts = N0; fs_dur = n_of_dec d; fs_cto = Z0; fs_flags = n_of_dec f; fs_data = [] }, n_of_dec z)
+            | _ -> failwith "bad raw sample") (split_on '/' samples) in
+        let t = { ti_has_dur = (bits.[0] = '1'); ti_has_size = (bits.[1] = '1'); ti_has_flags = (bits.[2] = '1');
+                  ti_has_first_flags = (bits.[3] = '1'); ti_samples = L.map fst raw } in
+        let f = { fi_def_dur = dd; fi_def_size = dz; fi_def_flags = df; fi_truns = [t] } in
+        let res = read_trun f tx t (L.map snd raw) in
+        let m = match res with
+          | [] -> "-"
+          | l -> S.concat "/" (L.map (fun (s, z) -> dec_of_n s.fs_dur ^ ":" ^ dec_of_n z ^ ":" ^ dec_of_n s.fs_flags) l) in
+        if m = obs then Printf.printf "OK %s\n" id
+        else Printf.printf "MISMATCH %s trun-defaults model=%s\n" id m
+      | ["M"; id; s1; s2; obs] ->
+        let i1 = parse_samples s1 and i2 = parse_samples s2 in
+        let ids = [n_of_int 1; n_of_int 2] in
+        let fo = combine_tracks ids [i1; i2] in
+        let rd tid = match read_track fo.fo_trafs tid with
+          | None -> "err" | Some [] -> "-"
+          | Some l -> S.concat "." (L.map (fun s -> dec_of_n s.fs_dts) l) in
+        let m = Printf.sprintf "ok|%s|1=%s;2=%s" (layout_string fo) (rd (n_of_int 1)) (rd (n_of_int 2)) in
+        if m = obs then Printf.printf "OK %s\n" id
+        else Printf.printf "MISMATCH %s combine model=%s\n" id m
       | _ -> Printf.printf "BADLINE %s\n" line)
